@@ -52,7 +52,7 @@ def make_tagger(variant_seed: int, density: float):
         if r.random() > density:
             return node
         is_input = isinstance(node, InputArgumentBase)
-        choices = ["user", "axis"]
+        choices = ["user", "axis", "stored"]      # (an ImplStored on an input is legal and must be inert)
         if not is_input:
             choices += ["stored", "stored", "inlined", "subst", "prefix", "named"]
             if isinstance(node, (IndexLambda, Einsum)):
@@ -270,6 +270,17 @@ def batch_chained_name_tags(ctx):
             (x * x).tagged(tp)),
     }
     jobs, meta = [], []
+    # implementation / name tags on INPUTS that are returned directly and used elsewhere
+    data = np.arange(4.0) * 2 - 3
+    for a, ta in tagsets.items():
+        if "named" in a or "prefix" in a:
+            continue
+        for kind in ("placeholder", "data_wrapper"):
+            xin = pt.make_placeholder("x", (4,), np.float64).tagged(ta) if kind == "placeholder" else \
+                pt.make_data_wrapper(data).tagged(ta)
+            e = pt.make_dict_of_named_arrays({"same": xin, "out": xin * 2 + 1, "other": pt.sum(xin)})
+            jobs.append(cexec.Job(tag=f"tagged-input:{kind}:{a}", expr=e, runs=[inp], prep=_prep_dedup))
+            meta.append((f"tagged-input-{kind}", a, "-", e))
     for sname, build in shapes.items():
         for (a, ta), (b, tb) in itertools.product(tagsets.items(), repeat=2):
             e = pt.make_dict_of_named_arrays({"out": build(ta, tb)})
@@ -292,8 +303,12 @@ def batch_chained_name_tags(ctx):
                           f"chain {sname} with tags p={a}, q={b}: {r.stage} failed: {r.error[:300]}",
                           {"shape": sname, "p": a, "q": b, "error": r.error})
             continue
-        ref = evaluate(e, inp)["out"]
+        refs = evaluate(e, inp)
+        bad_other = [k for k in refs if k != "out" and (r.outputs[0].get(k) is None or not close(r.outputs[0][k], refs[k]))]
+        ref = refs["out"]
         got = r.outputs[0].get("out")
+        if bad_other:
+            got = None
         if got is None or not close(got, ref):
             dis += 1
             ctx.violation("tags:value-differs-from-reference",
